@@ -312,7 +312,7 @@ func alphabet() []any {
 }
 
 func master(cfg *harness.Config, rep *harness.Report) {
-	rep.Rule = "user-id pairs incl. ids that are prefixes of one another, ids whose concatenation with a collection name collides with another user's keys (user 'abc' vs user 'ab' + collection 'c12'), '.', '..', ids with space, percent, backslash and non-ASCII; both users use the same collection names and point ids (plus, per pair, a collection named like the other user's id where that is a legal name). Breadth-first search over the product alphabet (per user: list, and per collection create / get / delete / insert 1 / insert 3 / update / search by id / filter search / delete point) on one real node through the HTTP handler chain; in lock-step each user's sub-history runs alone on its own node; every response of the interleaved run must equal the solitary run's response (status + canonical body). States are de-duplicated on the file inventory of all three nodes plus every list / get / search answer"
+	rep.Rule = "user-id pairs incl. ids that are prefixes of one another, ids whose concatenation with a collection name collides with another user's keys (user 'abc' vs user 'ab' + collection 'c12'), '.', '..', ids with space, percent, backslash and non-ASCII, ids that are images of one another under name normalisations (non-portable characters -> '_', case folding, percent-unescaping); both users use the same collection names and point ids (plus, per pair, a collection named like the other user's id where that is a legal name). Breadth-first search over the product alphabet (per user: list, and per collection create / get / delete / insert 1 / insert 3 / update / search by id / filter search / delete point) on one real node through the HTTP handler chain; in lock-step each user's sub-history runs alone on its own node; every response of the interleaved run must equal the solitary run's response (status + canonical body). States are de-duplicated on the file inventory of all three nodes plus every list / get / search answer"
 	rep.Assumptions = []string{"user ids contain no '/' (the property's precondition)", "requests are issued one at a time: the node database serialises concurrent writers, so interleavings of whole requests are the schedule space at this level", "shard uuids are random and compared by rank"}
 	p := pool.New(pool.Options{CPUsPerWorker: 2, JobTimeout: 120 * time.Second})
 	if cfg.Replay != "" {
@@ -338,6 +338,12 @@ func master(cfg *harness.Config, rep *harness.Report) {
 		{"a\\b", "a", []string{"col"}, []string{"col"}},
 		{"üser", "user", []string{"col"}, []string{"col"}},
 		{"alice", "alice ", []string{"col"}, []string{"col"}},
+		// pairs in which one id is the image of the other under a normalisation a
+		// storage layer might apply to names (portable file names, case folding, unescaping)
+		{"auth0|acme", "auth0_acme", []string{"col", "docs"}, []string{"col", "docs"}},
+		{"a@b.c", "a_b.c", []string{"col"}, []string{"col"}},
+		{"Alice", "alice", []string{"col"}, []string{"col"}},
+		{"a%20b", "a b", []string{"col"}, []string{"col"}},
 	}
 	var specs []seqx.Spec
 	for _, pr := range pairs {
